@@ -196,7 +196,7 @@ int main(int argc, char** argv) {
     verif::Run run("C32", argc, argv);
     run.setDeadline(300, 2700);
     const bool thorough = run.thorough();
-    run.rule = "strings: every string of length 0..4 (thorough 0..5) over {1 . 5 e - + space a n i f t} x {double,float,int,bool}; floats: every (sign,exponent) x 2^12 mantissa patterns "
+    run.rule = "strings: every string of length 0..4 (thorough 0..5) over {1 . 5 e - + space a n i f t} and every string of length 1..4 (1..5) over {0 1 x a . p n ( ) -} x {double,float,int,bool}; floats: every (sign,exponent) x 2^12 mantissa patterns "
                "(thorough: all 2^32 patterns); doubles: 2^11 exponents x 57 mantissa patterns x sign; integers at type boundaries and a dense band; containers: every tuple of the 12-value alphabet "
                "for Vec<1..4>, Row<3>, Mat<2,2>, Vector/RowVector/Array length 0..3, 144 patterns for larger Mat/Matrix; xml: every child sequence of length <= 3 over a 14-item node alphabet x 3 root attribute sets x 4 write/read modes; "
                "distinct = distinct input value; non-trivial = non-empty string / non-zero value / non-empty container or tree";
@@ -206,15 +206,28 @@ int main(int argc, char** argv) {
 
     // ================================================================ strings
     {
+        // two alphabets: decimal spellings and the documented names; and the C-library extensions a hand-written
+        // parser may let through (hexadecimal floats, nan(payload), binary exponents)
         static const char kAlpha[] = "1.5e-+ anift";
+        static const char kAlpha2[] = "01xa.pn()-";
         const int maxLen = thorough ? 5 : 4;
-        std::vector<int64_t> start{0};
+        std::vector<int64_t> start{0}, start2{0};
         { int64_t c = 1; for (int l = 0; l <= maxLen; ++l) { start.push_back(start.back() + c); c *= 12; } }
-        run.parallel("strings", start.back(), [&](int64_t idx) {
-            int len = 0; while (idx >= start[len + 1]) ++len;
-            int64_t k = idx - start[len];
-            std::string s(len, ' ');
-            for (int i = len - 1; i >= 0; --i) { s[i] = kAlpha[k % 12]; k /= 12; }
+        { int64_t c = 10; for (int l = 1; l <= maxLen; ++l) { start2.push_back(start2.back() + c); c *= 10; } }
+        const int64_t n1 = start.back();
+        run.parallel("strings", n1 + start2.back(), [&](int64_t idx) {
+            std::string s;
+            if (idx < n1) {
+                int len = 0; while (idx >= start[len + 1]) ++len;
+                int64_t k = idx - start[len];
+                s.assign(len, ' ');
+                for (int i = len - 1; i >= 0; --i) { s[i] = kAlpha[k % 12]; k /= 12; }
+            } else {
+                int64_t j = idx - n1; int len = 1; while (j >= start2[len]) ++len;
+                int64_t k = j - start2[len - 1];
+                s.assign(len, ' ');
+                for (int i = len - 1; i >= 0; --i) { s[i] = kAlpha2[k % 10]; k /= 10; }
+            }
             const String S(s);
             auto rp = [&] { return run.replayHeader() + "string=" + show(s) + "\n"; };
             auto judge = [&](const char* type, const Verdict& v, bool ok, bool valueOk, bool convThrew, bool convSame) {
